@@ -38,6 +38,7 @@ from __future__ import annotations
 import hashlib
 import json
 import logging
+import math
 import re
 import threading
 import time
@@ -305,6 +306,18 @@ class _TokenIntrospectionResource:
             )
             self._refuse(resp, HTTPStatus.NOT_FOUND, "unresolved")
             return
+
+        ttl = identity.ttl_seconds
+        if isinstance(ttl, bool) or not isinstance(ttl, (int, float)) or not math.isfinite(ttl) or ttl <= 0:
+            # The wire contract promises a finite positive ttl_seconds; a
+            # resolver that hands back anything else (NaN, 0, a string) is
+            # broken, and relaying its value would have callers cache a
+            # verdict forever, never, or not parse it at all.
+            _logger.error(
+                "introspection: resolver returned an invalid ttl_seconds",
+                extra={"principal": caller, "token_digest": digest, "ttl_seconds": repr(ttl)},
+            )
+            raise falcon.HTTPInternalServerError()
 
         _logger.info(
             "introspection: resolved",
